@@ -72,7 +72,10 @@ def sm3(
     """Initialise the optimiser's state."""
 
     def _init(param):
-      accumulators = [jnp.zeros([s]) for s in param.shape]
+      # Not the default float dtype: under jax_enable_x64 that is float64, and
+      # float32 parameters would get float64 updates and state after one step.
+      dtype = jnp.promote_types(param.dtype, jnp.float32)
+      accumulators = [jnp.zeros([s], dtype=dtype) for s in param.shape]
       momentum = _quantize_momentum(jnp.zeros_like(param))
       return ParameterStats(accumulators, momentum)  # pytype: disable=wrong-arg-types  # numpy-scalars
 
